@@ -43,6 +43,10 @@ def jobs(tier, seed):
                 J.append(Job('history:%s:%s:cache%d:tables%d' % (msg, 'compiled' if compiled else 'interpreted', cm, tl), 'harness.c13', 'h_history',
                              {'msg': msg, 'compiled': compiled, 'cache_max': cm, 'table_limit': tl, 'max_ops': 3 if thorough else 2},
                              timeout=6000 if thorough else 900, witnesses=['history']))
+    for compiled in (False, True):
+        J.append(Job('history:assoc-widths:%s' % ('compiled' if compiled else 'interpreted'), 'harness.c13', 'h_history',
+                     {'msg': 'E', 'other': 'F', 'compiled': compiled, 'cache_max': 2, 'table_limit': 2, 'max_ops': 3 if thorough else 2},
+                     timeout=6000 if thorough else 900, witnesses=['history']))
     J.append(Job('canary:eviction-count', 'harness.c13', 'h_table_cache_step', {'keys': 4}, timeout=300, max_cex=1,
                  mutate='pybufrkit.tables::                for _ in range(len(self._groups) + 1 - MAXIMUM_NUMBER_OF_CACHED_TABLE_GROUPS):-->>                for _ in range(len(self._groups) - MAXIMUM_NUMBER_OF_CACHED_TABLE_GROUPS):'))
     J.append(Job('canary:compiled-key', 'harness.c13', 'h_compiled_cache_step', {}, timeout=300, max_cex=1,
